@@ -25,6 +25,19 @@
 (* in the graph are its "concurrent" changes -- `Identity::op` only needs  *)
 (* to know whether there are any (`conc`).                                 *)
 (*                                                                         *)
+(* Facts about the evaluation order this module (and the harness that      *)
+(* realises its histories as commits) relies on, all read off              *)
+(* ChangeGraph::evaluate / Dag::prune_by and confirmed by the replay:      *)
+(*  - the children of the root are visited in descending id order, the     *)
+(*    dependents of any other change in ascending (timestamp, id) order;   *)
+(*    a branch is evaluated completely before the next one starts;         *)
+(*  - the "concurrent" changes of a change are all changes in the graph    *)
+(*    that are neither its ancestors nor its descendants -- including      *)
+(*    changes that are evaluated later and may then be pruned; changes     *)
+(*    pruned earlier are gone;                                             *)
+(*  - a change that merges the tips of both branches has no concurrent     *)
+(*    changes, unless a branch has a pruned tail (see Join).               *)
+(*                                                                         *)
 (* The object state `st` = [current, revs, heads] mirrors the fields of    *)
 (* `Identity`; `ApplyAction` transcribes `Identity::action` arm by arm,    *)
 (* `Adopt` transcribes `Identity::adopt`, `EvalOp` is `Identity::op`.      *)
